@@ -2,7 +2,8 @@
 
 R-C17-1  guard normal form of each constructor == the documented domain (missing / weakened / extra guards)
 R-C17-2  ExtensionDegree::try_from(u8) maps exactly 1..=6 to the variant with that discriminant
-R-C17-3  no silently adjusted value: the constructed object stores the caller's arguments themselves
+R-C17-3  no silently adjusted value: the constructed object stores the caller's arguments themselves; a copy (`Clone::clone`, and
+         `clone_from` where an impl has one) takes every field from the source's namesake
 R-C17-4  (thorough) compile-fail witnesses: the validated types cannot be built or mutated from outside the crate
 """
 from bpsa.normal import canon
